@@ -46,6 +46,11 @@ is partially evaluated per suffix (`k[-n:]` is a constant for keys `name + suffi
 the comparison it performs, and the result goes through the same strip / truth-table / None-guard checks as an if/elif chain.
 The table is assumed not to be mutated at run time.
 
+Named constants (`_LE = "_le_"` at module / class level or in `__call__`, bound once) are substituted before the analysis, so
+`k.endswith(_LE)` / `k[:-len(_LE)]` read like their literal forms.  `__call__` may also build its result with the accumulate
+idiom (`matched = []; for t in self: <guard clauses with continue>; matched.append(t)`): the guards dominating the single
+`append` are read as the comprehension filters (negations pushed inwards), `break` / `return` in that loop is refuted.
+
 A query result that is the receiver itself, its `_list`, or a new facade around the un-copied `_list` is refuted under
 `result` (the result must be a new list: it is iterated by remove_all while `remove` rewrites the live list).
 
@@ -363,6 +368,7 @@ class _Tables:
 
     def __init__(self, func):
         self.tables: Dict[str, Optional[Dict[str, ast.AST]]] = {}
+        self.consts: Dict[str, Optional[ast.Constant]] = {}     # NAME = '<literal>' / NAME = 4, bound once
         self.imports = func.module.imports
         scopes = [func.module.tree.body]
         for st in func.module.tree.body:
@@ -385,6 +391,16 @@ class _Tables:
                         all(isinstance(k, ast.Constant) and isinstance(k.value, str) for k in val.keys):
                     d = {k.value: v for k, v in zip(val.keys, val.values)}
                     self.tables[tgt.id] = None if tgt.id in self.tables else d
+                elif isinstance(tgt, ast.Name) and body is not scopes[-len(chain)] and isinstance(val, ast.Constant) \
+                        and isinstance(val.value, (str, int)) and not isinstance(val.value, bool):
+                    self.consts[tgt.id] = None if tgt.id in self.consts else val
+                elif isinstance(tgt, ast.Name) and tgt.id in self.consts:
+                    self.consts[tgt.id] = None
+
+    def const_env(self, exclude=()) -> Dict[str, ast.AST]:
+        """initial environment of the symbolic executor: named constants of the enclosing scopes (the function's own
+        assignments are executed by the executor itself and shadow these)"""
+        return {k: v for k, v in self.consts.items() if v is not None and k not in exclude}
 
     def lookup(self, e) -> Optional[Dict[str, ast.AST]]:
         if isinstance(e, ast.Dict) and e.keys and all(isinstance(k, ast.Constant) and isinstance(k.value, str) for k in e.keys):
@@ -553,6 +569,23 @@ def _implicit_returns(func) -> list:
     return [p for p in cfg.exit.pred if cfg.is_reachable(p) and not isinstance(p.ast, ast.Return)]
 
 
+_FLIP = {ast.Is: ast.IsNot, ast.IsNot: ast.Is, ast.Eq: ast.NotEq, ast.NotEq: ast.Eq, ast.In: ast.NotIn, ast.NotIn: ast.In}
+
+
+def _nnf(e: ast.AST, pol: bool = True) -> ast.AST:
+    """the condition (e with polarity pol) as one positive expression: negations pushed inwards (De Morgan, is/is not ...)"""
+    if isinstance(e, ast.UnaryOp) and isinstance(e.op, ast.Not):
+        return _nnf(e.operand, not pol)
+    if isinstance(e, ast.BoolOp):
+        op = e.op if pol else (ast.Or() if isinstance(e.op, ast.And) else ast.And())
+        return ast.BoolOp(op=op, values=[_nnf(v, pol) for v in e.values])
+    if pol:
+        return e
+    if isinstance(e, ast.Compare) and len(e.ops) == 1 and type(e.ops[0]) in _FLIP:
+        return ast.Compare(left=e.left, ops=[_FLIP[type(e.ops[0])]()], comparators=e.comparators)
+    return ast.UnaryOp(op=ast.Not(), operand=e)
+
+
 def _loop_exits(for_node: ast.For) -> List[ast.stmt]:
     out = []
     for st in for_node.body:
@@ -603,8 +636,9 @@ def _suffix_table(ctx):
                     env2.pop(n.id, None)
             return env2
 
+        tables = _Tables(f)
         try:
-            outer = _run(f.body, {}, [], on_for)
+            outer = _run(f.body, tables.const_env(exclude=f.params), [], on_for)
         except _Undecided as u:
             o.undecided(f, u.node, u.node, u.msg)
             return
@@ -654,7 +688,6 @@ def _suffix_table(ctx):
             o.undecided(f, u.node, u.node, u.msg)
             return
         V = _SearchVocab(task_p, key_v, val_is, resolver.name)
-        tables = _Tables(f)
         for suffix in SPEC:
             _one_suffix(o, f, V, paths, suffix, tables)
 
@@ -884,7 +917,7 @@ def _resolver(ctx):
         T, NM = params
         public, instance = _public_attributes(prog)
         try:
-            paths = [p for p, _ in _run(f.body, {}, [], None)]
+            paths = [p for p, _ in _run(f.body, _Tables(f).const_env(exclude=f.params), [], None)]
         except _Undecided as u:
             o.undecided(f, u.node, u.node, u.msg)
             return
@@ -1041,6 +1074,45 @@ def _call_returns(ctx):
             o.refute(f, n.ast if n.ast is not None else f.node, 'implicit return None',
                      "__call__ can end without `return`: the call then yields None instead of the list of matching tasks")
 
+        # local lists filled with `.append` (sa.flow does not see in-place mutation: never expand them to their `[]`)
+        accs = {n.func.value.id for n in walk_no_nested(f.node) if isinstance(n, ast.Call) and isinstance(n.func, ast.Attribute)
+                and n.func.attr == 'append' and isinstance(n.func.value, ast.Name)}
+        cfg = cfg_of(f)
+
+        def loop_form(r, acc: str):
+            """result accumulated by `acc = []; for t in <list>: <guards>; acc.append(t)` -> (elt, target, iter, filters, outer conds)"""
+            from sa.flow import flow_of
+            defs = flow_of(f).defs_of(acc)
+            if len(defs) != 1 or defs[0].kind != 'assign' or not (isinstance(defs[0].value, ast.List) and not defs[0].value.elts
+                                                                 or match("list()", defs[0].value)):
+                o.undecided(f, r, r.value, f"the result list `{acc}` is not initialised once with an empty list")
+                return None
+            uses = [n for n in walk_no_nested(f.node) if isinstance(n, ast.Attribute) and isinstance(n.value, ast.Name)
+                    and n.value.id == acc]
+            apps = [n for n in walk_no_nested(f.node) if isinstance(n, ast.Call) and n.func in uses and n.func.attr == 'append']
+            if len(apps) != 1 or len(uses) != 1 or len(apps[0].args) != 1 or not isinstance(apps[0].args[0], ast.Name):
+                o.undecided(f, r, r.value, f"the result list `{acc}` is not filled by exactly one `{acc}.append(<task>)`")
+                return None
+            ap = apps[0]
+            fo = _enclosing_for(f, ap, ap.args[0].id)
+            if fo is None:
+                o.undecided(f, ap, ap, f"`{src(ap)}` is not inside a loop that binds `{ap.args[0].id}`")
+                return None
+            exits = _loop_exits(fo)
+            if exits:
+                o2.refute(f, exits[0], exits[0], f"`{src(exits[0])}` inside the selection loop: the loop can stop before the last task of the list")
+                return None
+            cn = cfg.node_containing(ap)
+            inside = {id(x) for st in fo.body for x in ast.walk(st)}
+            filters, outer = [], []
+            for t, pol in cfg.conditions(cn):
+                tx = ex.expand(t, cfg.node_containing(t), stop=accs)
+                if id(t) in inside:
+                    filters.append(_nnf(tx, pol))
+                else:
+                    outer += facts.split_conj(tx, pol)
+            return ap.args[0], fo.target, ex.expand(fo.iter, cfg.node_of(fo), stop=accs), filters, outer
+
         def implies(conds, forms):
             for t, pol in conds:
                 for pat, want in forms:
@@ -1057,7 +1129,7 @@ def _call_returns(ctx):
             key_set = implies(conds, [(f"{KEY} is not None", True), (f"{KEY} is None", False), (f"callable({KEY})", True), (KEY, True)])
             kw_empty = implies(conds, [(f"not {KW}", True), (KW, False), (f"{KW} is None", True), (f"len({KW}) == 0", True),
                                        (f"len({KW}) > 0", False)])
-            v = ex.expand(r.value)
+            v = ex.expand(r.value, stop=accs)
             m = match("_ImmutableTaskList($c)", v)
             live = None
             if match(SELF, v) or match(f"{SELF}._list", v):
@@ -1074,6 +1146,15 @@ def _call_returns(ctx):
                     and len(comp.args) == 1:
                 comp = comp.args[0]
             parts = facts.comp_parts(comp) if comp is not None else None
+            if isinstance(comp, ast.Name) and comp.id in accs:
+                lf = loop_form(r, comp.id)
+                if lf is None:
+                    continue
+                parts = lf[:4]
+                conds = conds + lf[4]
+                key_none = key_none or implies(lf[4], [(f"{KEY} is None", True), (f"{KEY} is not None", False)])
+                key_set = key_set or implies(lf[4], [(f"{KEY} is not None", True), (f"{KEY} is None", False), (f"callable({KEY})", True)])
+                kw_empty = kw_empty or implies(lf[4], [(f"not {KW}", True), (KW, False)])
             if comp is not None and not parts and _whole(m['c'], lambda e: bool(match(SELF, e) or match(f"{SELF}._list", e)), True) == 'whole':
                 # a copy of the whole list: same as a comprehension without filters
                 nm = ast.Name(id='_t', ctx=ast.Load())
